@@ -119,6 +119,9 @@ type Image struct {
 	// admissible states, resolved by the runner
 	Admissible []*Model
 	AdmNames   []string
+	// Skip: taken while a raw (unmodelled) statement ran: the model does not
+	// know its intermediate states, the image is not explored
+	Skip bool
 }
 
 type World struct {
